@@ -11,7 +11,7 @@ from vf.props.c18 import harvest_words, IT_POS
 M32 = 0xFFFFFFFF
 USR = 0b10000
 # user-visible state (DESIGN.md appendix A.8); everything else in the snapshot is privileged
-USER_KEYS = {'R.R%dusr' % i for i in range(13)} | {'R.SPusr', 'R.LRusr', 'R.PC', 'event_register', 'wfe', 'wfi', 'cplog', 'excl'}
+USER_KEYS = {'R.R%dusr' % i for i in range(13)} | {'R.SPusr', 'R.LRusr', 'R.PC', 'event_register', 'wfe', 'wfi', 'cplog', 'excl', 'tpidrurw'}          # (TPIDRURW: the User read/write thread ID register)
 CPSR_USER_BITS = 0xF80F0000 | 0x0600FC00 | (1 << 9) | (1 << 5) | (1 << 24)   # NZCVQ, GE, IT, E, T, (J cannot be set by valid code paths here)
 FAULT_REGS = ('dfsr', 'dfar', 'hsr', 'hdfar', 'hpfar')
 # exceptions an instruction executed in User mode can architecturally cause: Undefined Instruction, Supervisor Call, Data Abort, and (Non-secure,
@@ -116,6 +116,32 @@ def run_word(acc, rng, cfgname, thumb, code, label, key, it=None, hooked=False, 
 
 
 CFGS = ['v6', 'v7', 'v6-nosec', 'v7-virt', 'v7-vmsa']
+
+
+def shard_cp15(part, nparts, seed):
+    """every CP15 register name (CRn, opc1, CRm, opc2) written (MCR) and read (MRC) from User mode, ARM and Thumb encodings, stock and hooked flavour:
+    the system control registers are privileged state - whatever a coprocessor interface does with the access (undefined, not implemented, a PL0
+    register such as TPIDRURW), nothing else may change"""
+    acc = Acc()
+    rng = random.Random(seed)
+    idx = 0
+    for crn in range(16):
+        for opc1 in range(8):
+            for crm in range(16):
+                for opc2 in range(8):
+                    idx += 1
+                    if idx % nparts != part:
+                        continue
+                    for hooked in (False, True):          # the write on both flavours (the stock coprocessor interface and an embedder's), the read on one
+                        load = 0 if not hooked or rng.random() < 0.6 else 1
+                        rt = rng.randrange(13)
+                        w = 0xEE000F10 | (opc1 << 21) | (load << 20) | (crn << 16) | (rt << 12) | (opc2 << 5) | crm
+                        thumb = bool(rng.getrandbits(1))
+                        code = e1.enc_thumb(w, True) + b'\x00\xbf' if thumb else e1.enc_arm(w)
+                        cfgname = CFGS[rng.randrange(len(CFGS))]
+                        run_word(acc, rng, cfgname, thumb, code, 'cp15-from-user', ('cp15', cfgname, w, thumb, hooked), it=0, hooked=hooked)
+    acc.exhaustive = True
+    return acc
 
 
 def shard_t16(cfgname, pos, lo, hi, seed):
@@ -366,6 +392,7 @@ def run(ctx):
         tasks.append((shard_programs, (c, ctx.shard_seed(k), ctx.n(800, 15000))))
         k += 1
     tasks += [(shard_unpriv, (ctx.shard_seed(k + i), ctx.n(600, 10000))) for i in range(4)]
+    tasks += [(shard_cp15, (i, 8, ctx.shard_seed(k + 80 + i))) for i in range(8)]
     tasks += [(shard_ld_unpriv, (ctx.shard_seed(k + 30 + i), ctx.n(250, 5000))) for i in range(4)]
     tasks += [(e1prop.shard, ('vf.props.c19:PLAN_VMSA', ctx.shard_seed(k + 10 + i), ctx.n(150, 3000))) for i in range(8)]
     from vf.props import c07
